@@ -67,6 +67,11 @@ def classify_outcome(op, exp, out, mp=False):
     props = set()
     name = op["op"]
     kind, val = out
+    if op.get("kind") == "missing":
+        props.add("C17")
+        if mp:
+            props.add("C16")
+        return props
     if name == "store":
         if kind == "ok" and exp.has_ok and isinstance(val, dict) and isinstance(exp.ok, dict):
             if val.get("cid") != exp.ok["cid"] or val.get("size") != exp.ok["size"]:
